@@ -122,6 +122,71 @@ theorem blockSum_ofFn (A : Nat → Nat → α) (idx : List Nat) (d : Fin idx.len
   rw [hz, List.map_map, Fin.sum_univ_def]
   rfl
 
+theorem zipWith_map_map_self {β γ δ ε : Type} (f : γ → δ → ε) (g : β → γ) (h : β → δ) (l : List β) :
+    List.zipWith f (l.map g) (l.map h) = l.map fun x => f (g x) (h x) := by
+  induction l with
+  | nil => rfl
+  | cons a l ih => simp [ih]
+
+theorem zipWith_self_map_right {β γ ε : Type} (f : β → γ → ε) (h : β → γ) (l : List β) :
+    List.zipWith f l (l.map h) = l.map fun x => f x (h x) := by
+  induction l with
+  | nil => rfl
+  | cons a l ih => simp [ih]
+
+/-- `rbDamp` returns one acceleration per rigid-body row -/
+theorem rbDamp_length (e : ColEnv α) (br mr : Option (List Nat)) (arb out : List α) (w : α)
+    (h : rbDamp e br mr arb w = .ok out) : out.length = arb.length := by
+  unfold rbDamp at h
+  by_cases hu : e.unc = true
+  · simp only [hu, Bool.not_true, Bool.false_eq_true, if_false] at h
+    cases br with
+    | none => cases h
+    | some br =>
+      simp only at h
+      by_cases hall : (br.all fun r => e.isZero (e.B r r)) = true
+      · simp only [hall, if_true, Except.ok.injEq] at h
+        subst h; rfl
+      · simp only [hall, Bool.false_eq_true, if_false] at h
+        cases him : rbIm e br mr with
+        | error m => rw [him] at h; cases h
+        | ok im =>
+          rw [him] at h
+          simp only at h
+          by_cases hl : (im.length != br.length || br.length != arb.length) = true
+          · simp only [hl, if_true] at h; cases h
+          · simp only [hl, Bool.false_eq_true, if_false, Except.ok.injEq] at h
+            subst h
+            simp only [Bool.or_eq_true, bne_iff_ne, not_or, not_not] at hl
+            simp [hl.1, hl.2]
+  · simp only [hu, Bool.not_false, if_true, Except.ok.injEq] at h
+    subst h; rfl
+
+/-- a diagonal row: only the own column contributes to the full-size row sum -/
+theorem sum_range_diag (n r : Nat) (hr : r < n) (f : Nat → α) (hf : ∀ c, c ≠ r → f c = 0) :
+    ((List.range n).map f).sum = f r := by
+  induction n with
+  | zero => omega
+  | succ n ih =>
+    rw [List.range_succ, List.map_append, List.sum_append]
+    by_cases h : r < n
+    · rw [ih h]; simp [hf n (by omega)]
+    · have hrn : r = n := by omega
+      have : ((List.range n).map f).sum = 0 := by
+        apply List.sum_eq_zero
+        intro t ht
+        obtain ⟨c, hc, rfl⟩ := List.mem_map.1 ht
+        exact hf c (by have := List.mem_range.1 hc; omega)
+      rw [this, hrn]; simp
+
+theorem optionRow_d (inc : Incrb) (dO : Bool) (rb rf : List Nat) (c : Nat) (x : Dva α) :
+    (optionRow inc dO rb rf c x).d = if c ∈ rb then (if inc.d = true then x.d else 0) else x.d := by
+  unfold optionRow
+  by_cases h : c ∈ rb
+  · simp [h, applyIncrb]
+  · simp only [List.contains_eq_mem, h, decide_false, Bool.false_eq_true, if_false]
+    split <;> rfl
+
 theorem scaleDva_one (x : Dva α) : scaleDva 1 x = x := by
   cases x; simp [scaleDva]
 
